@@ -50,7 +50,14 @@ func (g *c06Gen) probe(tag string, e *sx.N) *sx.N {
 }
 
 func (g *c06Gen) datum() *sx.N {
-	switch g.r.Intn(5) {
+	switch g.r.Intn(7) {
+	case 5:
+		// data that is NOT self-evaluating: an unquoted symbol or an unquoted call form,
+		// obtained as an element of a quoted list.  The handler receives the datum, it is
+		// not evaluated a second time.
+		return sx.Call("car", sx.Q(sx.L(fw.Pick(g.r, []*sx.N{sx.Y("unbound-datum"), sx.Call("+", sx.I(1), sx.I(2)), sx.Call("no-such-fn", sx.I(1)), sx.Y("true")}), sx.I(0))))
+	case 6:
+		return sx.Call("nth", sx.Q(sx.L(sx.I(0), sx.L(sx.Y("verif:probe"), sx.QY("evaluated-twice"), sx.I(1)))), sx.I(1))
 	case 0:
 		return sx.I(int64(g.r.Intn(100)))
 	case 1:
